@@ -64,6 +64,17 @@ def gen(ctx):
                 size = 300
             cases.append(Case(size, driver=driver, workers=rng.choice([1, 4]), bs=bs,
                               plan=[("clamp", 4, cap, "copy_file_range", 0, "{dst}")], label="kernel request cap"))
+    # layouts whose extent map and readable content disagree for a while: a region reserved with fallocate and then written
+    # through the page cache is still flagged `unwritten` by FIEMAP until writeback, yet it is data like any other
+    MiB = 1 << 20
+    for driver in ("parfile", "parblock"):
+        for (size, regions) in [(8 * MiB, [(MiB, 300001)]), (3 * MiB + 1234, [(0, 3 * B), (2 * MiB, 5 * B + 7)]),
+                                (6 * MiB, [(MiB + 12345, 70000), (5 * MiB, MiB)])]:
+            for bs in ([B * 16, "noprogress"] if quick else [B, B * 16, MiB, "noprogress"]):
+                c = Case(size, data=[(o, o + l) for o, l in regions], driver=driver, workers=rng.choice([1, 2, 4]), bs=bs,
+                         reflink="never", prior=rng.choice(["absent", "longer"]), label="preallocated, written, not yet synced")
+                c.prealloc = regions
+                cases.append(c)
     # "whenever xcp exits 0": also when a data call FAILED on the way — exit 0 then still promises identical bytes
     # (the failure must surface in the status, through whichever route the driver reports it: join result or the
     # update channel, with or without a progress bar)
@@ -107,7 +118,7 @@ def nontrivial(case, o):
 def run(ctx, out):
     out.rule = ("single regular file per case: size x block size boundary grid (0,1,k*bs-1,k*bs,k*bs+1), bs in "
                 "{1,2,3,7,512,4095,4096,4097,1MB,usize::MAX via --no-progress}, dense and sparse layouts (leading/trailing/"
-                "interleaved/empty, >32 extents), prior destination absent/shorter/longer/same, both drivers, workers "
+                "interleaved/empty, >32 extents, regions preallocated with fallocate and written without a sync), prior destination absent/shorter/longer/same, both drivers, workers "
                 "1..16, reflink auto/never, plus scaled kernel request caps and runs in which one data call fails (EIO / ENOSPC at the "
                 "n-th kernel copy or user-space write, with and without --no-progress): exit 0 still means identical; non-trivial = non-empty file with >=2 "
                 "transfers, or sparse, or overwriting, or a capped kernel; distinct = distinct case tuple")
